@@ -1,6 +1,7 @@
 (* Properties/C15.v — merge laws. *)
 From AY Require Import Model.Merge Spec.Update Proofs.MergePlain Proofs.Laws Proofs.Local.
 From AY Require Import Model.Loader Proofs.MergeGen Proofs.KeyOrder.
+From AY Require Spec.UpdateP Proofs.MergePrio Proofs.PrioPath Proofs.PrioLaws.
 
 (* Repeating the last document does not change the result: for every history of tag-free mapping documents and every
    well-formed last document (unique keys, no negative index keys), building docs ++ [d; d] and docs ++ [d] gives trees of
@@ -111,6 +112,26 @@ Print Assumptions C15_permutation_is_peqv.
 Theorem C15_update_idempotent : forall d, pwf d -> forall a r, upd a d = Ok r -> upd r d = Ok r.
 Proof. exact upd_idempotent. Qed.
 Print Assumptions C15_update_idempotent.
+
+(* ---- documents WITH priority tags (extension round) ----
+   Repeating the last document of any history of mapping documents whose scalars and enclosing mappings carry arbitrary priorities
+   (the class of C03_merge_is_prioritised_update) changes nothing: both builds succeed and the trees have the same priority image -
+   every value AND every node priority *)
+Theorem C15_idempotent_last_prioritised : forall e s0 sts last,
+  Forall MergePrio.NewZ (s0 :: sts ++ [last]) -> forallb is_dictk (s0 :: sts ++ [last]) = true ->
+  exists n m, flatten e (s0 :: sts ++ [last]) = Ok n /\ flatten e (s0 :: (sts ++ [last]) ++ [last]) = Ok m /\
+              MergePrio.perase m = MergePrio.perase n.
+Proof. exact PrioLaws.repeat_last_prio. Qed.
+Print Assumptions C15_idempotent_last_prioritised.
+
+(* the prioritised reference update is idempotent in its second argument, and merging a value with itself is the identity *)
+Theorem C15_prioritised_update_idempotent : forall b a, PrioPath.pwf b -> UpdateP.upd_p (UpdateP.upd_p a b) b = UpdateP.upd_p a b.
+Proof. exact PrioLaws.upd_p_idem. Qed.
+Print Assumptions C15_prioritised_update_idempotent.
+
+Theorem C15_prioritised_self_merge : forall v, PrioPath.pwf v -> UpdateP.upd_p v v = v.
+Proof. exact PrioLaws.upd_p_self. Qed.
+Print Assumptions C15_prioritised_self_merge.
 
 (* determinism of the model is reflexivity; what it stands for in the implementation (no state leaking between builds,
    no dependence on hash order) is carried by the correspondence and the build-twice oracle *)
